@@ -56,12 +56,20 @@ JOBS["C03"] = [
     H("threshold", "beaconnet", "^TestC03Threshold$", {"shards": 12, "checks": 30, "timeout": 900}, {"shards": 14, "checks": 500, "timeout": 3400}),
 ]
 
+JOBS["C05"] = [
+    H("liveness", "beaconnet", "^TestC05Liveness$", {"shards": 12, "checks": 12, "timeout": 1200}, {"shards": 14, "checks": 250, "timeout": 3400}),
+]
+
 LEVELS = {"C13": "fault_enumeration"}
 
 _MACHINE = ("rapid state machine over a network of real beacon handlers: scheme in 5, n in 2..6, t in [n/2+1,n], back-end in {memdb (cap 2000 or 10), bolt trimmed, bolt untrimmed}, period 2..6 s; "
             "actions: tick, sub-period advance, burst of 2-6 periods, advance of a subset (skew/stall), realign, partition/heal, queue mode with generated delivery order and drops, duplicate mode, stop/restart (same or fresh store), "
             "forged partial injection (12 kinds incl. valid-for-clock+k), scripted lying sync peer (13 kinds), sync-stream tap. ")
 RULES = {
+    "C05": "fault scripts over networks of real beacon handlers (scheme in 5, n in 3..6, t in [n/2+1,n], 3 back-ends, period 2..6 s, catch-up 1..period-1 s): healthy prefix of 0-3 rounds, 1-5 fault periods each a partition "
+           "(possibly leaving no side with t nodes), node stops, per-link loss or idle, then a healed phase with >= t nodes up (stopped nodes restarted with their old or an empty store, some staying down). "
+           "Oracle (bounded liveness in fake time, 1 s steps): all up nodes reach head == clock round within g*c*p/(p-c) + 4p (g = rounds missing at heal), the chain has no hole / fork (C02 scan), the next 3 periods each add exactly one round "
+           "on every up node, every restarted node emits a partial again. A budget miss is re-run once; only a repeat is a violation (else counted inconclusive). Non-trivial: outage of >= 2 rounds or a restart+rejoin; distinct by full script.",
     "C03": "networks of real beacon handlers with sync disabled and every link queued (scheme in 5, n in 2..6, t in [n/2+1,n], 0..n-1 members down = corrupted, 2-5 rounds); per round and observer the harness delivers the "
            "partials of a drawn subset of honest members (so that own + delivered is t-2, t-1 or t), valid partials made on behalf of corrupted members, and junk (wrong share, other round, other/junk previous signature, "
            "non-member index, receiver's own index, truncated, bit-flipped, empty, replay of a counted member) in a drawn order. Oracle: a node's first Put of round R requires >= t distinct members whose partial for exactly "
@@ -98,6 +106,7 @@ RULES = {
 }
 
 ASSUMPTIONS = {
+    "C05": ["liveness is checked as bounded liveness in fake time, not unbounded eventually", "catch-up period < period (with equality a gap can never close by construction)", "in-memory network: gRPC back-off not modelled"],
     "C03": ["adversary holds fewer than t shares", "kyber VerifyPartial is the harness's validity criterion"],
     "C18": ["bbolt itself is correct", "postgres back-end not reachable offline (not covered)", "signatures are non-empty byte strings"],
     "C17": ["kyber point marshalling is injective", "sha256 / blake2b collisions are not produced by single-field changes"],
